@@ -2025,6 +2025,8 @@ impl SctpInner {
             };
 
             let now = Instant::now();
+            #[cfg(rustrtc_verif)]
+            let verif_before = self.verif_sentq_view();
             let outcome = {
                 let mut sent_queue = self.sent_queue.lock();
 
@@ -2058,6 +2060,8 @@ impl SctpInner {
                     self.max_tsn_retransmits,
                 )
             };
+            #[cfg(rustrtc_verif)]
+            self.verif_sack_effect(cumulative_tsn_ack, &verif_before);
 
             // Track retransmissions from fast retransmit
             if !outcome.retransmit.is_empty() {
@@ -3804,6 +3808,13 @@ impl SctpInner {
                 }
                 *fwd = stream_ssn.into_iter().collect();
             }
+            #[cfg(rustrtc_verif)]
+            crate::verif::emit(
+                "sctp",
+                self.verif_inst(),
+                "advfx",
+                serde_json::json!({"removed": remove, "to": new_advanced}),
+            );
             for t in remove {
                 sent_queue.remove(&t);
             }
@@ -4229,6 +4240,38 @@ impl SctpInner {
                 "mytag": self.verification_tag.load(Ordering::SeqCst),
                 "peertag": self.remote_verification_tag.load(Ordering::SeqCst),
             }),
+        );
+    }
+
+    /// (tsn, gap-acked) of every chunk in the retransmission queue.
+    fn verif_sentq_view(&self) -> Vec<(u32, bool)> {
+        if !crate::verif::enabled() {
+            return Vec::new();
+        }
+        self.sent_queue.lock().iter().map(|(t, r)| (*t, r.acked)).collect()
+    }
+
+    /// What one SACK did to the retransmission queue: TSNs removed, TSNs newly marked gap-acked.
+    fn verif_sack_effect(&self, cum: u32, before: &[(u32, bool)]) {
+        if !crate::verif::enabled() {
+            return;
+        }
+        let q = self.sent_queue.lock();
+        let mut removed = Vec::new();
+        let mut gap_acked = Vec::new();
+        for (t, was_acked) in before {
+            match q.get(t) {
+                None => removed.push(*t),
+                Some(r) if r.acked && !*was_acked => gap_acked.push(*t),
+                _ => {}
+            }
+        }
+        drop(q);
+        crate::verif::emit(
+            "sctp",
+            self.verif_inst(),
+            "sackfx",
+            serde_json::json!({"cum": cum, "removed": removed, "gap_acked": gap_acked}),
         );
     }
 
